@@ -9,65 +9,71 @@ import ErgoModel.Storage
 import ErgoProofs.Lemmas.StorageRead
 namespace Ergo.Storage
 
-/-- assumptions on the line codec -/
-structure Codec (classify : Bytes → LineClass) (encode : Event → Bytes) : Prop where
+/-- what is required of the line codec, for the events in `W` (the events a writer may be asked to write).  `ErgoProofs.Props.Codec`
+    proves it of the concrete JSON codec of ErgoModel.Codec, with `W` = `Codec.Wf`; `Witness.lean` has a toy instance with `W` = everything -/
+structure CodecOn (W : Event → Prop) (classify : Bytes → LineClass) (encode : Event → Bytes) : Prop where
   /-- an encoded event contains neither '\n' nor '\r' and is not empty -/
-  clean : ∀ e, NL ∉ encode e ∧ CR ∉ encode e ∧ encode e ≠ []
+  clean : ∀ e, W e → NL ∉ encode e ∧ CR ∉ encode e ∧ encode e ≠ []
   /-- decoding an encoded line gives the event back -/
-  parses : ∀ e, classify (encode e) = .ev e
+  parses : ∀ e, W e → classify (encode e) = .ev e
   /-- a proper, non-empty prefix of an encoded line is not a JSON value -/
-  prefix_bad : ∀ e p, p <+: encode e → p ≠ encode e → p ≠ [] → classify p = .bad
+  prefix_bad : ∀ e p, W e → p <+: encode e → p ≠ encode e → p ≠ [] → classify p = .bad
   /-- the empty line is blank -/
   empty_blank : classify [] = .blank
 
-variable {classify : Bytes → LineClass} {encode : Event → Bytes} {limit : Nat}
+/-- a codec for every event -/
+abbrev Codec (classify : Bytes → LineClass) (encode : Event → Bytes) : Prop := CodecOn (fun _ => True) classify encode
 
-/-- events whose encoded line the scanner admits -/
-def Short (encode : Event → Bytes) (limit : Nat) (evs : List Event) : Prop := ∀ e ∈ evs, (encode e).length < limit
+variable {W : Event → Prop} {classify : Bytes → LineClass} {encode : Event → Bytes} {limit : Nat}
+
+/-- events a writer may write (`W`) whose encoded line the scanner admits -/
+def Short (W : Event → Prop) (encode : Event → Bytes) (limit : Nat) (evs : List Event) : Prop := ∀ e ∈ evs, W e ∧ (encode e).length < limit
 
 /-- the file is empty or ends in '\n' -/
 def Closed (f : Bytes) : Prop := f = [] ∨ endsWithNL f = true
 
 /-! ### helper facts about the codec and batches -/
-theorem Codec.dropCR_encode (hc : Codec classify encode) (e : Event) : dropCR (encode e) = encode e :=
-  dropCR_noCR _ (hc.clean e).2.1
+theorem CodecOn.dropCR_encode (hc : CodecOn W classify encode) (e : Event) (hw : W e) : dropCR (encode e) = encode e :=
+  dropCR_noCR _ (hc.clean e hw).2.1
 
-theorem Codec.scanLines_linesOf (hc : Codec classify encode) (evs : List Event) :
+theorem CodecOn.scanLines_linesOf (hc : CodecOn W classify encode) (evs : List Event) (hw : ∀ e ∈ evs, W e) :
     scanLines (linesOf encode evs) = evs.map encode := by
   have h := scanLines_join (evs.map encode) [] (by
     intro l hl
-    obtain ⟨e, -, rfl⟩ := List.mem_map.1 hl
-    exact (hc.clean e).1) (by simp)
+    obtain ⟨e, he, rfl⟩ := List.mem_map.1 hl
+    exact (hc.clean e (hw e he)).1) (by simp)
   simp only [List.append_nil, if_true] at h
   rw [linesOf_eq_joinLines, h, List.map_map]
   apply List.map_congr_left
-  intro e _
-  exact hc.dropCR_encode e
+  intro e he
+  exact hc.dropCR_encode e (hw e he)
 
-theorem Codec.flatMap_evOf (hc : Codec classify encode) (evs : List Event) :
+theorem CodecOn.flatMap_evOf (hc : CodecOn W classify encode) (evs : List Event) (hw : ∀ e ∈ evs, W e) :
     (evs.map encode).flatMap (fun t => evOf (classify t)) = evs := by
   induction evs with
   | nil => rfl
   | cons e evs ih =>
-    rw [List.map_cons, List.flatMap_cons, ih, hc.parses]; rfl
+    rw [List.map_cons, List.flatMap_cons, ih (fun x hx => hw x (List.mem_cons_of_mem _ hx)), hc.parses e (hw e (List.mem_cons_self ..))]; rfl
 
-theorem Codec.tokens_good (hc : Codec classify encode) {evs : List Event} (hs : Short encode limit evs) :
+theorem Short.w {evs : List Event} (hs : Short W encode limit evs) : ∀ e ∈ evs, W e := fun e he => (hs e he).1
+
+theorem CodecOn.tokens_good (hc : CodecOn W classify encode) {evs : List Event} (hs : Short W encode limit evs) :
     ∀ t ∈ evs.map encode, t.length < limit ∧ classify t ≠ .bad := by
   intro t ht
   obtain ⟨e, he, rfl⟩ := List.mem_map.1 ht
-  exact ⟨hs e he, by simp [hc.parses]⟩
+  exact ⟨(hs e he).2, by simp [hc.parses e (hs e he).1]⟩
 
-theorem closed_linesOf (hc : Codec classify encode) (evs : List Event) : Closed (linesOf encode evs) := by
+theorem closed_linesOf (hc : CodecOn W classify encode) (evs : List Event) (hw : ∀ e ∈ evs, W e) : Closed (linesOf encode evs) := by
   rw [linesOf_eq_joinLines]
   exact (closed_iff_join _).2 ⟨evs.map encode, by
     intro l hl
-    obtain ⟨e, -, rfl⟩ := List.mem_map.1 hl
-    exact (hc.clean e).1, rfl⟩
+    obtain ⟨e, he, rfl⟩ := List.mem_map.1 hl
+    exact (hc.clean e (hw e he)).1, rfl⟩
 
 theorem readEvents_nil : readEvents classify limit [] = .ok [] := by
   simp [readEvents, scanLines_nil, readLoop]
 
-theorem Short.take {evs : List Event} (hs : Short encode limit evs) (n : Nat) : Short encode limit (evs.take n) :=
+theorem Short.take {evs : List Event} (hs : Short W encode limit evs) (n : Nat) : Short W encode limit (evs.take n) :=
   fun e he => hs e (List.mem_of_mem_take he)
 
 /-- cutting a batch after `k` bytes leaves some complete lines and a (possibly empty) prefix of the next line -/
@@ -99,20 +105,20 @@ theorem take_linesOf (encode : Event → Bytes) (evs : List Event) (k : Nat) :
         · exact Or.inr ⟨e', by simpa using he', hpre, hne⟩
 
 /-! ### appends extend the recorded history (C12 "history only grows") -/
-theorem readEvents_linesOf (hc : Codec classify encode) (evs : List Event) (hs : Short encode limit evs) :
+theorem readEvents_linesOf (hc : CodecOn W classify encode) (evs : List Event) (hs : Short W encode limit evs) :
     readEvents classify limit (linesOf encode evs) = .ok evs := by
   have := readEvents_extend (classify := classify) (limit := limit) (g := []) (h := linesOf encode evs)
-    (evs.map encode) (Or.inl rfl) readEvents_nil (by rw [hc.scanLines_linesOf, scanLines_nil]; simp)
+    (evs.map encode) (Or.inl rfl) readEvents_nil (by rw [hc.scanLines_linesOf evs hs.w, scanLines_nil]; simp)
     (hc.tokens_good hs)
-  simpa [hc.flatMap_evOf] using this
+  simpa [hc.flatMap_evOf evs hs.w] using this
 
-theorem readEvents_append_closed (hc : Codec classify encode) (f : Bytes) (es evs : List Event) (hcl : Closed f)
-    (hr : readEvents classify limit f = .ok es) (hs : Short encode limit evs) :
+theorem readEvents_append_closed (hc : CodecOn W classify encode) (f : Bytes) (es evs : List Event) (hcl : Closed f)
+    (hr : readEvents classify limit f = .ok es) (hs : Short W encode limit evs) :
     readEvents classify limit (f ++ linesOf encode evs) = .ok (es ++ evs) := by
   have := readEvents_extend (classify := classify) (limit := limit) (h := f ++ linesOf encode evs)
-    (evs.map encode) hcl hr (by rw [scanLines_closed_append _ hcl, hc.scanLines_linesOf])
+    (evs.map encode) hcl hr (by rw [scanLines_closed_append _ hcl, hc.scanLines_linesOf evs hs.w])
     (hc.tokens_good hs)
-  simpa [hc.flatMap_evOf] using this
+  simpa [hc.flatMap_evOf evs hs.w] using this
 
 /-! ### the torn tail (C03) -/
 /-- repairing changes nothing a reader sees, and leaves the file closed -/
@@ -168,17 +174,17 @@ theorem readEvents_repairTail (f : Bytes) (es : List Event) (hr : readEvents cla
 
 /-- C03 core: on ANY readable file (however it was torn before), an append makes exactly the new events visible
     after everything that was visible, and the store stays readable -/
-theorem appendFile_reads (hc : Codec classify encode) (f : Bytes) (es evs : List Event)
-    (hr : readEvents classify limit f = .ok es) (hs : Short encode limit evs) :
+theorem appendFile_reads (hc : CodecOn W classify encode) (f : Bytes) (es evs : List Event)
+    (hr : readEvents classify limit f = .ok es) (hs : Short W encode limit evs) :
     readEvents classify limit (appendFile classify encode f evs) = .ok (es ++ evs) ∧
     Closed (appendFile classify encode f evs) := by
   obtain ⟨h1, h2⟩ := readEvents_repairTail (classify := classify) (limit := limit) f es hr
-  exact ⟨readEvents_append_closed hc _ es evs h2 h1 hs, closed_append h2 (closed_linesOf hc evs)⟩
+  exact ⟨readEvents_append_closed hc _ es evs h2 h1 hs, closed_append h2 (closed_linesOf hc evs hs.w)⟩
 
 /-- a write cut short at any byte offset leaves a readable file showing everything from before plus a prefix of
     the interrupted batch -/
-theorem appendTorn_reads (hc : Codec classify encode) (f : Bytes) (es evs : List Event) (k : Nat)
-    (hr : readEvents classify limit f = .ok es) (hs : Short encode limit evs) :
+theorem appendTorn_reads (hc : CodecOn W classify encode) (f : Bytes) (es evs : List Event) (k : Nat)
+    (hr : readEvents classify limit f = .ok es) (hs : Short W encode limit evs) :
     ∃ n, n ≤ evs.length ∧ readEvents classify limit (appendTorn classify encode f evs k) = .ok (es ++ evs.take n) := by
   obtain ⟨n, p, hn, htake, hp⟩ := take_linesOf encode evs k
   obtain ⟨hG, hGc⟩ := appendFile_reads hc f es (evs.take n) hr (hs.take n)
@@ -188,9 +194,10 @@ theorem appendTorn_reads (hc : Codec classify encode) (f : Bytes) (es evs : List
   rcases hp with rfl | ⟨e, he, hpre, hne⟩
   · exact ⟨n, hn, by simpa using hG⟩
   · have hmem : e ∈ evs := List.mem_of_getElem? he
-    have hNL : NL ∉ p := fun h => (hc.clean e).1 (hpre.subset h)
-    have hCR : CR ∉ p := fun h => (hc.clean e).2.1 (hpre.subset h)
-    have hlen : p.length < limit := Nat.lt_of_le_of_lt hpre.length_le (hs e hmem)
+    have hwe : W e := (hs e hmem).1
+    have hNL : NL ∉ p := fun h => (hc.clean e hwe).1 (hpre.subset h)
+    have hCR : CR ∉ p := fun h => (hc.clean e hwe).2.1 (hpre.subset h)
+    have hlen : p.length < limit := Nat.lt_of_le_of_lt hpre.length_le (hs e hmem).2
     have hsc : scanLines (appendFile classify encode f (evs.take n) ++ p) =
         scanLines (appendFile classify encode f (evs.take n)) ++ [p] := by
       rw [scanLines_closed_append _ hGc, scanLines_frag p hNL hne, dropCR_noCR p hCR]
@@ -203,11 +210,11 @@ theorem appendTorn_reads (hc : Codec classify encode) (f : Bytes) (es evs : List
       have := readEvents_extend (classify := classify) (limit := limit) [p] hGc hG hsc (by
         intro t ht
         simp at ht; subst ht
-        exact ⟨hlen, by rw [hpe, hc.parses]; simp⟩)
+        exact ⟨hlen, by rw [hpe, hc.parses e hwe]; simp⟩)
       rw [this, List.take_add_one, he]
-      simp [hpe, hc.parses, evOf]
+      simp [hpe, hc.parses e hwe, evOf]
     · refine ⟨n, hn, ?_⟩
-      have hbad : classify p = .bad := hc.prefix_bad e p hpre hpe hne
+      have hbad : classify p = .bad := hc.prefix_bad e p hwe hpre hpe hne
       rw [readEvents_bad_tail hGc hsc (by
         rw [endsWithNL_append _ _ hne]; exact endsWithNL_noNL p hNL) hbad hlen]
       exact hG
@@ -223,18 +230,18 @@ theorem readEvents_fragment (f frag : Bytes) (hcl : Closed f) (hnl : NL ∉ frag
 /-! ### any alternation of crashes and commands (C03's quantifier) -/
 /-- what can happen to the log file: a command appends (acknowledged), a command's write is torn at byte k and the
     process dies, or the log is atomically replaced by a complete re-encoding (plan/compact) -/
-inductive FileStep (classify : Bytes → LineClass) (encode : Event → Bytes) (limit : Nat) : Bytes → Bytes → Prop where
-  | append (f evs) : Short encode limit evs → FileStep classify encode limit f (appendFile classify encode f evs)
-  | torn (f evs k) : Short encode limit evs → FileStep classify encode limit f (appendTorn classify encode f evs k)
-  | replace (f evs) : Short encode limit evs → FileStep classify encode limit f (replaceFile encode evs)
+inductive FileStep (W : Event → Prop) (classify : Bytes → LineClass) (encode : Event → Bytes) (limit : Nat) : Bytes → Bytes → Prop where
+  | append (f evs) : Short W encode limit evs → FileStep W classify encode limit f (appendFile classify encode f evs)
+  | torn (f evs k) : Short W encode limit evs → FileStep W classify encode limit f (appendTorn classify encode f evs k)
+  | replace (f evs) : Short W encode limit evs → FileStep W classify encode limit f (replaceFile encode evs)
 
-inductive FileReach (classify : Bytes → LineClass) (encode : Event → Bytes) (limit : Nat) : Bytes → Bytes → Prop where
-  | refl (f) : FileReach classify encode limit f f
-  | tail {a b c} : FileReach classify encode limit a b → FileStep classify encode limit b c → FileReach classify encode limit a c
+inductive FileReach (W : Event → Prop) (classify : Bytes → LineClass) (encode : Event → Bytes) (limit : Nat) : Bytes → Bytes → Prop where
+  | refl (f) : FileReach W classify encode limit f f
+  | tail {a b c} : FileReach W classify encode limit a b → FileStep W classify encode limit b c → FileReach W classify encode limit a c
 
 /-- however many crashes and writes alternate, the store stays readable -/
-theorem reach_readable (hc : Codec classify encode) (f g : Bytes) (es : List Event)
-    (hr : readEvents classify limit f = .ok es) (h : FileReach classify encode limit f g) :
+theorem reach_readable (hc : CodecOn W classify encode) (f g : Bytes) (es : List Event)
+    (hr : readEvents classify limit f = .ok es) (h : FileReach W classify encode limit f g) :
     ∃ es', readEvents classify limit g = .ok es' := by
   induction h with
   | refl => exact ⟨es, hr⟩
@@ -248,15 +255,15 @@ theorem reach_readable (hc : Codec classify encode) (f g : Bytes) (es : List Eve
     | replace evs hs => exact ⟨evs, readEvents_linesOf hc evs hs⟩
 
 /-- without rewrites (plan/compact), what was visible stays visible, in order, as a prefix -/
-inductive AppendReach (classify : Bytes → LineClass) (encode : Event → Bytes) (limit : Nat) : Bytes → Bytes → Prop where
-  | refl (f) : AppendReach classify encode limit f f
-  | append {a b} (evs) : AppendReach classify encode limit a b → Short encode limit evs →
-      AppendReach classify encode limit a (appendFile classify encode b evs)
-  | torn {a b} (evs k) : AppendReach classify encode limit a b → Short encode limit evs →
-      AppendReach classify encode limit a (appendTorn classify encode b evs k)
+inductive AppendReach (W : Event → Prop) (classify : Bytes → LineClass) (encode : Event → Bytes) (limit : Nat) : Bytes → Bytes → Prop where
+  | refl (f) : AppendReach W classify encode limit f f
+  | append {a b} (evs) : AppendReach W classify encode limit a b → Short W encode limit evs →
+      AppendReach W classify encode limit a (appendFile classify encode b evs)
+  | torn {a b} (evs k) : AppendReach W classify encode limit a b → Short W encode limit evs →
+      AppendReach W classify encode limit a (appendTorn classify encode b evs k)
 
-theorem appendReach_prefix (hc : Codec classify encode) (f g : Bytes) (es : List Event)
-    (hr : readEvents classify limit f = .ok es) (h : AppendReach classify encode limit f g) :
+theorem appendReach_prefix (hc : CodecOn W classify encode) (f g : Bytes) (es : List Event)
+    (hr : readEvents classify limit f = .ok es) (h : AppendReach W classify encode limit f g) :
     ∃ more, readEvents classify limit g = .ok (es ++ more) := by
   induction h with
   | refl => exact ⟨[], by simpa using hr⟩
